@@ -109,7 +109,7 @@ def verus_name(meta_path):
     out = []
     for s in segs:
         if s.startswith('impl ') or s.startswith('impl<'):
-            k = re.sub(r'^impl\s*(<[^>]*>)?\s*', '', s)
+            k = asm.rsitems.strip_generics(re.sub(r'^impl\s*(<[^>]*>)?\s*', '', s))
             if ' for ' in k:
                 tr, ty = k.split(' for ')
                 out.append(ty)   # Verus prints trait impl fns as `Type::fn` too (checked at run time)
@@ -205,7 +205,8 @@ def classify(ur):
     errs = [d for d in m['diags'] if d.get('level') == 'error' and not d.get('message', '').startswith('aborting due to')]
     if vr.get('success'):
         return out
-    if vr.get('encountered-vir-error') or 'verified' not in vr:
+    rustc_errs = [d for d in errs if d.get('code')]
+    if vr.get('encountered-vir-error') or 'verified' not in vr or rustc_errs:
         out['status'] = 'frontend'
         out['notes'] += [d.get('message', '') + ' @' + ','.join('%d' % s['line_start'] for s in d.get('spans', [])[:1]) for d in errs[:6]]
         return out
